@@ -94,7 +94,15 @@ LEAVES = [
     ("validated", "even"), ("validated", "nonempty_str"),
 ]
 HASHABLE_LEAVES = [t for t in LEAVES]  # all leaf value pools are hashable
-TYPE_ARGS = [("any",), ("cls", "int"), ("cls", "str"), ("cls", "User"), ("cls", "UserSub"), ("cls", "object"), ("cls", "Spec")]
+TYPE_ARGS = [("any",), ("cls", "int"), ("cls", "str"), ("cls", "User"), ("cls", "UserSub"), ("cls", "object"), ("cls", "Spec"),
+             # parameterised / structured arguments: only the origin class can be (and is) checked
+             ("list", ("cls", "int"), "typing"), ("list", ("cls", "int"), "pep585"), ("dict", ("cls", "str"), ("cls", "int"), "typing"), ("vtuple", ("cls", "int"), "typing"),
+             ("optional", ("list", ("cls", "int"), "typing")), ("union", [("cls", "str"), ("list", ("cls", "int"), "typing")], "typing"), ("none_literal",)]
+NONE_ARG_TERMS = [  # the literal None as an argument of PEP 585 generics
+    ("list", ("none_literal",), "pep585"), ("set", ("none_literal",), "pep585"), ("dict", ("cls", "str"), ("none_literal",), "pep585"), ("dict", ("none_literal",), ("cls", "int"), "pep585"),
+    ("tuple", [("cls", "int"), ("none_literal",)], "pep585"), ("vtuple", ("none_literal",), "pep585"), ("optional", ("list", ("none_literal",), "pep585")),
+    ("dict", ("cls", "str"), ("list", ("none_literal",), "pep585"), "typing"),
+]
 SMALL = [("cls", "int"), ("cls", "str"), ("cls", "none"), ("cls", "User"), ("literal", ["a", "b"]), ("bounded", "int", 0, None, None, None)]
 
 
@@ -123,7 +131,10 @@ def wrap_all(inner_terms, rng=None, sample=None):
     for style in ("typing", "pep585"):
         out.append(("tuple", [], style))
         for t in TYPE_ARGS:
+            if t == ("none_literal",) and style == "typing":
+                continue  # typing.Type[None] is normalised to Type[NoneType] by typing itself
             out.append(("type", t, style))
+    out += NONE_ARG_TERMS
     pairs = list(itertools.product(inner_terms, SMALL))
     if sample is not None and rng is not None and len(pairs) > sample:
         pairs = rng.sample(pairs, sample)
@@ -204,6 +215,8 @@ def conforming(term, env, rng):
         }[n]()
     if k == "list":
         return [conforming(term[1], env, rng) for _ in range(rng.randint(0, 3))]
+    if k == "none_literal":
+        return None
     if k == "set":
         return {conforming(term[1], env, rng) for _ in range(rng.randint(0, 3))}
     if k == "dict":
@@ -215,9 +228,9 @@ def conforming(term, env, rng):
     if k == "type":
         if term[1][0] == "any":
             return rng.choice([int, c["Other"], str])
-        base = refcheck.resolve_class(term[1][1], env)
-        subs = [x for x in (bool, c["UserSub"], base) if issubclass(x, base)]
-        return rng.choice(subs)
+        pool = [bool, int, str, list, dict, tuple, type(None), c["UserSub"], c["User"], c["Other"]] + ([refcheck.resolve_class(term[1][1], env)] if term[1][0] == "cls" else [])
+        subs = [x for x in pool if refcheck.subclass_conforms(x, term[1], env)]
+        return rng.choice(subs) if subs else int  # (Type[Literal[...]] has no conforming class: the caller's reference decides)
     if k == "union":
         return conforming(rng.choice(term[1]), env, rng)
     if k == "optional":
